@@ -45,8 +45,10 @@ def gen_cases(tier, seed):
                           "group": "cpmc-%s" % kind})
     for kind in ("rhf", "uhf", "ghf", "noci"):
         for norb in ([3, 4] if q else [3, 4, 5]):
-            for (na, nb) in measure.sectors(norb, kind):
+            for (na, nb) in measure.sectors(norb, kind, include_empty_dn=(kind == "uhf")):   # fully polarised sectors (n, 0) for uhf
                 for cls in ("generic", "rohf-like", "spin-broken", "orthogonal"):
+                    if nb == 0 and cls != "generic":
+                        continue
                     if kind == "rhf" and cls != "generic":
                         continue
                     for restricted in (False, True):
@@ -61,7 +63,7 @@ def gen_cases(tier, seed):
     if q:
         keep = [c for c in cases if c["type"] != "init"]
         init = [c for c in cases if c["type"] == "init"]
-        must = [c for c in init if c["kind"] == "uhf" and c["norb"] == 4 and tuple(c["nelec"]) in ((2, 1), (2, 2), (3, 1), (3, 2), (4, 2))]
+        must = [c for c in init if c["kind"] == "uhf" and c["norb"] == 4 and tuple(c["nelec"]) in ((2, 1), (2, 2), (3, 1), (3, 2), (4, 2), (2, 0), (1, 0), (3, 0))]
         rest = [c for c in init if c not in must]
         idx = rng.choice(len(rest), size=min(len(rest), 60), replace=False)
         cases = keep + must + [rest[i] for i in sorted(idx)]
